@@ -29,6 +29,7 @@ generator handlers only:
   ['wait', evspec, opts]      self.fire(event); r = yield self.wait(event, **opts)
   ['waitname', evspec, opts]  self.fire(event); r = yield self.wait(event.name, **opts)
   ['sleep', t]                yield sleep(t)
+  ['yieldsteps']              as many bare yields as the event's evspec 'steps' says
 evspec: {'name': str, 'prio': number (default 0), 'flags': {'success','failure','complete','notify': bool},
          'cancel': bool (cancel right after firing), 'success_channels'/'complete_channels': [...],
          'channels': [...] (fire to these channels; handlers may carry 'channel'),
@@ -478,6 +479,14 @@ class World:
                     yield self.sleep(act[1])
                     step += 1
                     self.L('GR', uid, hid, step)
+                elif k == 'yieldsteps':
+                    # as many bare yields as the EVENT asks for (evspec 'steps'): events of one name that keep their handler busy for
+                    # different lengths of time
+                    for _ in range(int(self.events[uid]['spec'].get('steps', 0))):
+                        self.L('GY', uid, hid, step)
+                        yield None
+                        step += 1
+                        self.L('GR', uid, hid, step)
                 else:
                     r = self._common(act, hd, event, comp, uid, fired)
                     if r is not None:
